@@ -40,6 +40,26 @@ pub fn run(ctx: &Ctx) -> Report {
             }
         }
     }
+    // E5: second engine on the R2 runs (and R1-quick in the thorough tier)
+    let mut xs = vec![];
+    if rep.violations.is_empty() {
+        let mut alphas = vec![alphabet_r2()];
+        if thorough {
+            alphas.push(alphabet_r1(false));
+        }
+        for alpha in alphas {
+            for automatic in [false, true] {
+                let name = SignSys { alpha: alpha.clone(), automatic, oracle: Oracle::LockStep }.name();
+                let sr = crate::xcheck::stateright_unique_states(SignSys { alpha: alpha.clone(), automatic, oracle: Oracle::LockStep });
+                let mine = runs.iter().find(|r| r["run"] == json!(name)).and_then(|r| r["states"].as_u64()).unwrap_or(0);
+                xs.push(json!({"run": name, "stateright_unique_states": sr, "own_explorer_states": mine, "equal": sr == mine}));
+                if sr != mine {
+                    rep.machinery_errors.push(format!("E5 cross-check: stateright found {} unique states for {}, the own explorer {}", sr, name, mine));
+                }
+            }
+        }
+    }
+    rep.set("stateright_cross_check", Value::Array(xs));
     rep.set("bfs_runs", Value::Array(runs));
     let diverged = !rep.violations.is_empty();
     let mut missing = vec![];
